@@ -1502,4 +1502,77 @@ example :
     cutOf (chatPromptT ⟨true, false, 0, 30⟩ ⟨2, true⟩ tHeader 1 nvconv) = some 3 ∧
     scanOf (chatPromptT ⟨true, false, 0, 30⟩ ⟨2, true⟩ tHeader 1 nvconv) = [1, 0] := by decide
 
+
+/-! ### longest fitting run without hypothesis, header template (round 7) -/
+
+
+
+
+theorem collate_system_remove (x : RMsg) (hx : x.1 ≠ Role.system) (a b : List RMsg) :
+    (collate (a ++ x :: b)).1 = (collate (a ++ b)).1 := by
+  unfold collate
+  simp [List.filter_append, List.filter_cons, hx]
+
+/-- cost of a candidate under the header template and the byte tokenizer -/
+theorem tcost_header_bytes (tv : TVar) (msgs : List Msg) (tools : ToolsV) (i : Nat) :
+    tcost tv tHeader 1 msgs tools i =
+      (if (collate ((cand msgs i).map toRMsg)).1.isEmpty then 0 else 3 + (collate ((cand msgs i).map toRMsg)).1.length) +
+        hgl ((cand msgs i).map toRMsg) := by
+  have := header_exact tv ((cand msgs i).map toRMsg) tools
+  unfold tcost renderAt
+  show (match execute tv tHeader ((cand msgs i).map toRMsg) tools with
+    | .ok b => tokenCount 1 b | .err _ => 0) = _
+  rw [this]
+  simp only [tokenCount, List.length_append]
+  have e : ∀ l : List RMsg, (l.flatMap headerG).length = (l.flatMap hBody).length := by
+    intro l; rfl
+  unfold hgl
+  rw [e]
+  cases hs : (collate ((cand msgs i).map toRMsg)).1.isEmpty <;> simp <;> omega
+
+/-- the measured total never grows when the run gets shorter: header template, byte tokenizer -/
+theorem total_antitone_header_bytes (cfg : Cfg) (tv : TVar) (msgs : List Msg) (tools : ToolsV) :
+    ∀ i j, i ≤ j → j + 1 < msgs.length →
+      total cfg (tcost tv tHeader 1 msgs tools) msgs j ≤ total cfg (tcost tv tHeader 1 msgs tools) msgs i := by
+  have hstep : ∀ i, i < msgs.length →
+      total cfg (tcost tv tHeader 1 msgs tools) msgs (i+1) ≤ total cfg (tcost tv tHeader 1 msgs tools) msgs i := by
+    intro i hi
+    have hc : tcost tv tHeader 1 msgs tools (i+1) ≤ tcost tv tHeader 1 msgs tools i := by
+      rw [tcost_header_bytes, tcost_header_bytes]
+      have hd : msgs.drop i = msgs[i] :: msgs.drop (i+1) := List.drop_eq_getElem_cons hi
+      by_cases hr : msgs[i].role = Role.system
+      · have : cand msgs (i+1) = cand msgs i := by
+          unfold cand; rw [systemsBefore_succ msgs i hi, hd]; simp [hr]
+        rw [this]; exact Nat.le_refl _
+      · have h1 : cand msgs i = systemsBefore msgs i ++ msgs[i] :: msgs.drop (i+1) := by
+          unfold cand; rw [hd]
+        have h2 : cand msgs (i+1) = systemsBefore msgs i ++ msgs.drop (i+1) := by
+          unfold cand; rw [systemsBefore_succ msgs i hi]; simp [hr]
+        rw [h1, h2]
+        simp only [List.map_append, List.map_cons]
+        have hx : (toRMsg msgs[i]).1 ≠ Role.system := hr
+        rw [collate_system_remove _ hx]
+        have := hgl_remove (toRMsg msgs[i]) hx ((systemsBefore msgs i).map toRMsg) ((msgs.drop (i+1)).map toRMsg)
+        omega
+    have hi' := imgCount_drop_step msgs i
+    unfold total
+    split
+    · have := Nat.mul_le_mul_left (imageNumTokens cfg) hi'
+      omega
+    · omega
+  intro i j hij hj
+  have := antitone_of_step (fun k => total cfg (tcost tv tHeader 1 msgs tools) msgs k) msgs.length hstep (j - i) i (by omega)
+  have e : i + (j - i) = j := by omega
+  rw [e] at this
+  exact this
+
+/-- **The retained messages are THE longest recent run that fits** — header messages template, byte tokenizer;
+    no hypothesis on the cost. -/
+theorem retained_longest_fitting_header_bytes {tv : TVar} {tf : Option Nat} {p : Bytes} {tools : ToolsV}
+    (h : chatPromptT cfg tv tHeader 1 msgs tf tools = .ok q n sys ret imgs p) :
+    ∀ j, j + 1 < msgs.length →
+      (fits cfg (tcost tv tHeader 1 msgs tools) msgs j = true ↔ n ≤ j) :=
+  retained_longest_fitting (templ_ok_exact h).1 (total_antitone_header_bytes cfg tv msgs tools)
+
+
 end OllamaVerif.C19
